@@ -6,10 +6,13 @@
          verification/contextual/src/contextual_block_verifier.rs  BlockTxsVerifier::verify
               hit  : TimeRelativeTransactionVerifier, then the cached Completed
               miss : ContextualTransactionVerifier (time_relative, capacity, scripts, fee)
+              both : .and_then(DaoScriptSizeVerifier) when rfc0044 is active for the parent's epoch
+                     (a second context-dependent check, Section DaoSize below)
               every (witness hash, Completed) of a block whose transactions all passed is put
               into the cache (before the block's cycle sum is compared with the limit)
          tx-pool/src/util.rs verify_rtx, tx-pool/src/process.rs _process_tx
-              same two paths; the entry is inserted after a miss when the pool admitted the tx
+              same two paths; the entry is inserted after a miss when the pool admitted the tx;
+              DaoScriptSizeVerifier is chained to the miss path ONLY (Section DaoSize: verify_tx_pool)
    (b) the store's read caches
          store/src/cache.rs StoreCache, store/src/store.rs getters, store/src/transaction.rs
          insert_block / delete_block, store/src/cell.rs attach/detach_block_cell
@@ -48,9 +51,11 @@ Section VCache.
   (* where it is verified: commit position / pool tip (TxVerifyEnv + the headers since and maturity read) *)
   Variable ctx : Type.
   Variable wtx_hash : tx -> N.                      (* TransactionView::witness_hash *)
-  (* CapacityVerifier, scripts (-> cycles), FeeCalculator, DaoScriptSizeVerifier: None = one of them fails *)
+  (* CapacityVerifier, scripts (-> cycles), FeeCalculator: None = one of them fails.
+     (DaoScriptSizeVerifier is NOT content: whether the rule is waived depends on the block the
+     deposit cell was committed in, i.e. on the branch — Section DaoSize) *)
   Variable content : tx -> option completed.
-  (* MaturityVerifier + SinceVerifier *)
+  (* MaturityVerifier + SinceVerifier; in Section DaoSize's instance also the DAO lock-size rule *)
   Variable time_relative : ctx -> tx -> bool.
   Variable max_block_cycles : N.
 
@@ -169,6 +174,129 @@ Arguments VSubmit {tx ctx}.
 Arguments VBlock {tx ctx}.
 Arguments VEvict {tx ctx}.
 
+(* =========================================================================== *)
+(* (a') the RFC0044 DAO lock-size rule: a second context-dependent check        *)
+(* =========================================================================== *)
+(* verification/src/transaction_verifier.rs DaoScriptSizeVerifier: for every
+   (input i, output i) pair that both carry the DAO type script and whose input
+   data is all zero (a deposit cell), the two lock scripts must have the same
+   total_size — unless the input's CellMeta.transaction_info.block_number is
+   below consensus.starting_block_limiting_dao_withdrawing_lock.  The block a
+   cell was committed in is a property of the BRANCH, not of the transaction:
+   the very same (transaction, witnesses) passes at one position and fails at
+   another.  It is therefore modelled like since/maturity: a function of the
+   position. *)
+Section DaoSize.
+  Variable tx : Type.
+  Variable ctx : Type.
+  Variable wtx_hash : tx -> N.
+  Variable content : tx -> option completed.          (* capacity, scripts, fee *)
+  Variable time_relative : ctx -> tx -> bool.         (* since, maturity *)
+  (* DaoScriptSizeVerifier::verify at a position (the position fixes where each input was committed) *)
+  Variable dao_size : ctx -> tx -> bool.
+  (* consensus.rfc0044_active(parent.epoch().number()) *)
+  Variable rfc0044 : ctx -> bool.
+  Variable max_block_cycles : N.
+
+  Definition dao_gate (x : ctx) (t : tx) : bool := negb (rfc0044 x) || dao_size x t.
+  (* both position-dependent checks of the block path as one *)
+  Definition tr_dao (x : ctx) (t : tx) : bool := time_relative x t && dao_gate x t.
+
+  (* BlockTxsVerifier::verify, one transaction:
+       if hit { TimeRelative } else { Contextual }.and_then(|r| { if rfc0044 { DaoScriptSize? } Ok(r) }) *)
+  Definition verify_tx_blk (c : vcache) (x : ctx) (lim : N) (skip : bool) (t : tx) : option completed :=
+    match verify_tx tx ctx wtx_hash content time_relative c x lim skip t with
+    | Some e => if dao_gate x t then Some e else None
+    | None => None
+    end.
+
+  Fixpoint verify_txs_blk (c : vcache) (x : ctx) (skip : bool) (txs : list tx) : option (list completed) :=
+    match txs with
+    | [] => Some []
+    | t :: txs' =>
+      match verify_tx_blk c x max_block_cycles skip t with
+      | Some e => match verify_txs_blk c x skip txs' with Some l => Some (e :: l) | None => None end
+      | None => None
+      end
+    end.
+
+  Definition verify_block_d (c : vcache) (x : ctx) (skip : bool) (txs : list tx) : option (list completed) * vcache :=
+    match verify_txs_blk c x skip txs with
+    | Some es =>
+      let c' := put_all tx wtx_hash txs es c in
+      (if N.leb (sum_cycles es) max_block_cycles then Some es else None, c')
+    | None => (None, c)
+    end.
+
+  (* tx-pool/src/util.rs verify_rtx:
+       hit  : TimeRelativeTransactionVerifier only
+       miss : ContextualTransactionVerifier.and_then(DaoScriptSizeVerifier)   (not gated by rfc0044) *)
+  Definition verify_tx_pool (c : vcache) (x : ctx) (lim : N) (t : tx) : option completed :=
+    match lookup c (wtx_hash t) with
+    | Some e => verify_hit tx ctx time_relative x t e
+    | None =>
+      match verify_full tx ctx content time_relative x lim false t with
+      | Some e => if dao_size x t then Some e else None
+      | None => None
+      end
+    end.
+
+  (* _process_tx with that verify_rtx *)
+  Definition submit_d (c : vcache) (x : ctx) (declared : option N) (pool_ok : bool) (t : tx) : option completed * vcache :=
+    let lim := match declared with Some d => d | None => max_block_cycles end in
+    match verify_tx_pool c x lim t with
+    | Some e =>
+      if match declared with Some d => N.eqb d (c_cycles e) | None => true end then
+        if pool_ok then
+          (Some e, match lookup c (wtx_hash t) with Some _ => c | None => put (wtx_hash t) e c end)
+        else (None, c)
+      else (None, c)
+    | None => (None, c)
+    end.
+
+  Inductive dop :=
+  | DSubmit (x : ctx) (declared : option N) (pool_ok : bool) (t : tx)
+  | DBlock (x : ctx) (skip : bool) (txs : list tx)
+  | DEvict (keep : N -> bool).
+
+  Definition dstep (c : vcache) (o : dop) : vout * vcache :=
+    match o with
+    | DSubmit x d a t => let (r, c') := submit_d c x d a t in (OTx r, c')
+    | DBlock x skip txs => let (r, c') := verify_block_d c x skip txs in (OBlock r, c')
+    | DEvict keep => (ONone, restrict keep c)
+    end.
+
+  Fixpoint drun (c : vcache) (ops : list dop) : list vout :=
+    match ops with
+    | [] => []
+    | o :: ops' => let (r, c') := dstep c o in r :: drun c' ops'
+    end.
+
+  Definition dstep_ref (o : dop) : vout :=
+    match o with
+    | DSubmit x d a t => OTx (fst (submit_d [] x d a t))
+    | DBlock x skip txs => OBlock (fst (verify_block_d [] x skip txs))
+    | DEvict _ => ONone
+    end.
+  Definition drun_ref (ops : list dop) : list vout := map dstep_ref ops.
+
+  (* block verifications at any position; pool submissions only at positions
+     where the lock-size rule holds or is waived for the transaction *)
+  Definition dop_ok (o : dop) : Prop :=
+    match o with
+    | DSubmit x d _ t => match d with Some d' => N.le d' max_block_cycles | None => True end /\ dao_size x t = true
+    | DBlock _ skip _ => skip = false
+    | DEvict _ => True
+    end.
+  (* ... or no pool submissions at all *)
+  Definition dop_block_only (o : dop) : Prop :=
+    match o with DSubmit _ _ _ _ => False | DBlock _ skip _ => skip = false | DEvict _ => True end.
+End DaoSize.
+
+Arguments DSubmit {tx ctx}.
+Arguments DBlock {tx ctx}.
+Arguments DEvict {tx ctx}.
+
 (* ---- the instance the correspondence cases are evaluated with -------------- *)
 (* A transaction as observed by the harness: ids of its witness hash and of
    its transaction hash, what the content checks give (independent of the
@@ -231,6 +359,42 @@ Fixpoint check_items (maxc : N) (cap : option nat) (init c : fmap completed) (l 
 
 Definition check_vcase (v : vcase) : bool :=
   check_items (vc_maxc v) (vc_cap v) (vc_init v) (trunc (vc_cap v) (vc_init v)) (vc_items v).
+
+(* ---- the DAO stream's instance ---------------------------------------------- *)
+(* a transaction at one position of a history: witness-hash id, content result,
+   since/maturity at that position, DaoScriptSizeVerifier at that position (the
+   generator's own reading of the rule: equal sizes, or the deposit was committed
+   below the limiting block number on the branch of that position) *)
+Record dotx := mkDO { do_wtx : N; do_content : option completed; do_tr : bool; do_dao : bool }.
+
+Definition d_verify_block (maxc : N) (c : fmap completed) (txs : list dotx) :=
+  verify_block_d dotx unit do_wtx do_content (fun _ t => do_tr t) (fun _ t => do_dao t) (fun _ => true) maxc c tt false txs.
+Definition d_submit (maxc : N) (c : fmap completed) (t : dotx) :=
+  submit_d dotx unit do_wtx do_content (fun _ t => do_tr t) (fun _ t => do_dao t) maxc c tt None true t.
+
+Inductive ditem :=
+| DBlk (txs : list dotx) (accepted : bool) (recorded : list completed)   (* one block verification and the node's answer *)
+| DPool (t : dotx) (accepted : bool)                                     (* test_accept / submit of a loose transaction *)
+| DForget.                                                               (* restart, or the cache is cleared *)
+
+Record dcase := mkDCase { dc_maxc : N; dc_cap : option nat; dc_items : list ditem }.
+
+Fixpoint check_ditems (maxc : N) (cap : option nat) (c : fmap completed) (l : list ditem) : bool :=
+  match l with
+  | [] => true
+  | DForget :: l' => check_ditems maxc cap [] l'
+  | DBlk txs acc rec :: l' =>
+    let (r, c') := d_verify_block maxc c txs in
+    match r with
+    | Some es => acc && list_eqb completed_eqb es rec
+    | None => negb acc
+    end && check_ditems maxc cap (trunc cap c') l'
+  | DPool t acc :: l' =>
+    let (r, c') := d_submit maxc c t in
+    Bool.eqb (match r with Some _ => true | None => false end) acc && check_ditems maxc cap (trunc cap c') l'
+  end.
+
+Definition check_dcase (v : dcase) : bool := check_ditems (dc_maxc v) (dc_cap v) [] (dc_items v).
 
 (* =========================================================================== *)
 (* (b) the store's read caches                                                 *)
